@@ -9,6 +9,10 @@ from . import locks, monitors, repo, simdev, transports, vclock
 CLOSING_OPS = {"shell", "exec_out", "root", "list", "stat", "pull", "push", "streaming_shell"}
 
 
+class CallbackAbort(BaseException):
+    """raised by a progress callback of kind 'raisebase': not an Exception subclass (like KeyboardInterrupt or a task cancellation)"""
+
+
 class Outcome(object):
     __slots__ = ("kind", "value", "exc", "partial")
 
@@ -123,7 +127,7 @@ class Session(object):
                 value = fn(*args, **kw)
             normal = True
             return Outcome("ret", value)
-        except Exception as e:  # noqa
+        except (Exception, CallbackAbort) as e:  # noqa
             return Outcome("exc", exc=e, partial=value if isinstance(value, list) else None)
         except transports.Hang as e:
             return Outcome("hang", exc=e, partial=value if isinstance(value, list) else None)
@@ -154,7 +158,7 @@ class Session(object):
                 value = await fn(*args, **kw)
             normal = True
             return Outcome("ret", value)
-        except Exception as e:  # noqa
+        except (Exception, CallbackAbort) as e:  # noqa
             return Outcome("exc", exc=e, partial=value if isinstance(value, list) else None)
         except transports.Hang as e:
             return Outcome("hang", exc=e, partial=value if isinstance(value, list) else None)
